@@ -397,6 +397,20 @@ func evalConfP(cf *sdl.Conf, cfg map[string]string, preset bool) confExpect {
 		}
 		e.Value = fmt.Sprintf("&{%s %s}", a, b)
 		return e
+	case "typePrefixDyn":
+		// an untagged pointer the application has set to a holder that names its own section
+		a, okA := cfg[cf.Keys[0]+".a"]
+		b, okB := cfg[cf.Keys[0]+".b"]
+		if !okA && !okB {
+			e.Missing = true
+			e.Value = "&{" + cf.Keys[0] + " 0 }"
+			return e
+		}
+		if a == "" {
+			a = "0"
+		}
+		e.Value = fmt.Sprintf("&{ %s %s}", a, b)
+		return e
 	case "prefixStruct":
 		a, okA := cfg[cf.Keys[0]+".a"]
 		b, okB := cfg[cf.Keys[0]+".b"]
